@@ -671,6 +671,45 @@ func scenC15(c *ctx) {
 		seen[name] = true
 		c.rec.Emit(doNewRawSuite("C15/"+tag+"/"+fmt.Sprintf("%q", name), name, inlist))
 	}
+	// (first, while whatever the library remembers between calls is still empty or small: a bounded memo that has
+	// filled up no longer shows the effect)
+	// spellings that a normalising parser might identify with one another (letter case, surrounding blanks, a
+	// leading zero), back to back with the plain string in both orders and not de-duplicated: whatever a variant
+	// left behind (a memo keyed by the normalised text, say) must not change what the next string reports
+	mixed := func(n string) string {
+		b := []byte(strings.ToLower(n))
+		up := true
+		for i := range b {
+			if up && b[i] >= 'a' && b[i] <= 'z' {
+				b[i] -= 32
+			}
+			up = b[i] == '-' || b[i] == ':'
+		}
+		return string(b)
+	}
+	raw := func(tag, name string) {
+		c.rec.Emit(doNewRawSuite("C15/"+tag+"/"+fmt.Sprintf("%q", name), name, false))
+	}
+	for i := 0; i < c.n(12, 150); i++ {
+		name := c.grammarName()
+		vars := []string{strings.ToLower(name), mixed(name), name + " ", " " + name, strings.Replace(name, "-Q", "-q", 1), strings.Replace(name, "HOTP", "hotp", 1)}
+		v := vars[i%len(vars)]
+		tag := fmt.Sprintf("norm/%d", i)
+		if i%2 == 0 {
+			raw(tag+"/a", v)
+			raw(tag+"/b", name)
+			raw(tag+"/c", v)
+		} else {
+			raw(tag+"/a", name)
+			raw(tag+"/b", v)
+			raw(tag+"/c", name)
+		}
+		// and what is derived with the suite taken after the variant
+		if sa, err := rawSuiteArg(name); err == nil {
+			key := c.someKey()
+			c.rec.Emit(doGenerateOCRA(fmt.Sprintf("C15/%s/gen", tag), b32(key), sa, c.admissibleInput(sa.su.Cfg, i)))
+		}
+	}
 	for _, name := range listSuites() {
 		emit("adv", name, true)
 	}
